@@ -52,6 +52,10 @@ fn marshal_struct(params: &[params::Param], ctx: &mut MarshalContext) -> Result<
 }
 
 fn marshal_variant(var: &params::Variant, ctx: &mut MarshalContext) -> Result<(), MarshalError> {
+    // the recorded signature must be the type of the value, else the receiver cannot make sense of the bytes
+    if !value_has_type(&var.value, &var.sig) {
+        return Err(signature::Error::InvalidSignature.into());
+    }
     let mut sig_str = String::new();
     var.sig.to_str(&mut sig_str);
     marshal_signature(&sig_str, ctx.buf)?;
@@ -85,6 +89,34 @@ fn marshal_dict(dict: &params::DictMap, ctx: &mut MarshalContext) -> Result<(), 
         &mut ctx.buf[len_pos..len_pos + 4],
     );
     Ok(())
+}
+
+/// Does `p` have the type `sig`? (`Param::sig()` cannot be asked: it panics on an empty struct)
+pub(crate) fn value_has_type(p: &params::Param, sig: &signature::Type) -> bool {
+    match (p, sig) {
+        (params::Param::Base(b), _) => signature::Type::Base(b.into()) == *sig,
+        (params::Param::Container(c), signature::Type::Container(csig)) => match (c, csig) {
+            (params::Container::Array(a), signature::Container::Array(el)) => a.element_sig == **el,
+            (params::Container::ArrayRef(a), signature::Container::Array(el)) => a.element_sig == **el,
+            (params::Container::Dict(d), signature::Container::Dict(k, v)) => d.key_sig == *k && d.value_sig == **v,
+            (params::Container::DictRef(d), signature::Container::Dict(k, v)) => {
+                d.key_sig == *k && d.value_sig == **v
+            }
+            (params::Container::Struct(fields), signature::Container::Struct(types)) => {
+                struct_has_type(fields, types.as_ref())
+            }
+            (params::Container::StructRef(fields), signature::Container::Struct(types)) => {
+                struct_has_type(fields, types.as_ref())
+            }
+            (params::Container::Variant(_), signature::Container::Variant) => true,
+            _ => false,
+        },
+        _ => false,
+    }
+}
+
+fn struct_has_type(fields: &[params::Param], types: &[signature::Type]) -> bool {
+    fields.len() == types.len() && fields.iter().zip(types).all(|(f, t)| value_has_type(f, t))
 }
 
 pub fn marshal_container_param(
